@@ -22,6 +22,10 @@ func (core *JApiCore) collectMacro() *jerr.JApiError {
 }
 
 func (core *JApiCore) addMacro(d *directive.Directive) *jerr.JApiError {
+	if _, ok := core.bannedDirectives[directive.Macro]; ok {
+		return d.KeywordError(fmt.Sprintf("%s (%s)", jerr.DirectiveNotAllowed, directive.Macro.String()))
+	}
+
 	if d.Annotation != "" {
 		return d.KeywordError(jerr.AnnotationIsForbiddenForTheDirective)
 	}
